@@ -137,7 +137,7 @@ def _segment(chk, repo, folder, ff, fr):
     w = repo.func(CL, f"{C}.write", "C12.R2")
     fw = ff_for(chk, w, "C12.R2")
     d = fw.one_def("data")
-    chk.check(d is not None and src(d) in ("b[0:7]", "b[:7]", "bytes(b[0:7])", "bytes(b[:7])"), "R2", f"{CL}:{C}.write | chunk is the head of the buffer", w.loc(),
+    chk.check(d is not None and src(d) in ("b[:7]", "bytes(b[:7])"), "R2", f"{CL}:{C}.write | chunk is the head of the buffer", w.loc(),
               f"data = {src(d) if d is not None else '?'}")
     rets = [n for n in own_nodes(w.node) if isinstance(n, ast.Return) and n.value is not None and not isinstance(n.value, ast.Constant)]
     for r in rets:
@@ -152,10 +152,10 @@ def _segment(chk, repo, folder, ff, fr):
             # one call for both cases, `end` being a local that holds the "declared size reached" predicate: the end case holds by
             # construction; for the other case the facts at the call, with that local false, must force a full segment
             d_end = fw.one_def(end_name)
-            reached = d_end is not None and fw.canon(src(d_end)) in (fw.canon("self.size is not None and self.pos + len(b[0:7]) >= self.size"),
+            reached = d_end is not None and fw.canon(src(d_end)) in (fw.canon("self.size is not None and self.pos + len(b[:7]) >= self.size"),
                                                                       fw.canon("self.size is not None and self.pos + len(data) >= self.size"))
             chk.check(reached, "R2", f"{CL}:{C}.write | end when the declared size is reached", w.loc(c), f"send(end={end_name}) with {end_name} = {src(d_end) if d_end is not None else '?'}")
-            short = {"len(b[0:7]) < 7", "len(data) < 7"}
+            short = {"len(b[:7]) < 7", "len(data) < 7"}
             facts_raw = fw.facts_at(fw.stmt_of(c))
 
             def val(e, env):
@@ -169,7 +169,7 @@ def _segment(chk, repo, folder, ff, fr):
                     return env["end"]
                 if t_ in short:
                     return env["short"]
-                if t_ in ("len(b[0:7]) >= 7", "len(data) >= 7", "len(data) == 7", "len(b[0:7]) == 7"):
+                if t_ in ("len(b[:7]) >= 7", "len(data) >= 7", "len(data) == 7", "len(b[:7]) == 7"):
                     return not env["short"]
                 return env.setdefault(t_, True)        # unrelated atoms: true for the path considered (see below)
             # a short middle segment (end false, short true) must contradict the facts whatever the unrelated atoms are
@@ -187,7 +187,7 @@ def _segment(chk, repo, folder, ff, fr):
                     leafs.add(src(e))
             for e, _p in facts_raw:
                 leaves_of(e)
-            free = sorted(leafs - short - {end_name, "len(b[0:7]) >= 7", "len(data) >= 7", "len(data) == 7", "len(b[0:7]) == 7"})
+            free = sorted(leafs - short - {end_name, "len(b[:7]) >= 7", "len(data) >= 7", "len(data) == 7", "len(b[:7]) == 7"})
             if len(free) <= 8:
                 for combo in itertools.product([False, True], repeat=len(free)):
                     env = dict(zip(free, combo), end=False, short=True)
@@ -199,10 +199,10 @@ def _segment(chk, repo, folder, ff, fr):
                 chk.unk("R2", f"{CL}:{C}.write | only full segments mid-transfer", w.loc(c), f"too many conditions at the call: {g}")
             continue
         if end_kw:
-            ok = ("self.size is not None", True) in g and any(p and t in (fw.canon("self.pos + len(b[0:7]) >= self.size"), fw.canon("self.pos + len(data) >= self.size")) for t, p in g)
+            ok = ("self.size is not None", True) in g and any(p and t in (fw.canon("self.pos + len(b[:7]) >= self.size"), fw.canon("self.pos + len(data) >= self.size")) for t, p in g)
             chk.check(ok, "R2", f"{CL}:{C}.write | end when the declared size is reached", w.loc(c), f"send(end=True) under {g}")
         else:
-            ok = any(not p and t in (fw.canon("len(b[0:7]) < 7"), fw.canon("len(data) < 7")) for t, p in g) or any(p and t in (fw.canon("len(b[0:7]) >= 7"), fw.canon("len(data) >= 7")) for t, p in g)
+            ok = any(not p and t in (fw.canon("len(b[:7]) < 7"), fw.canon("len(data) < 7")) for t, p in g) or any(p and t in (fw.canon("len(b[:7]) >= 7"), fw.canon("len(data) >= 7")) for t, p in g)
             chk.check(ok, "R2", f"{CL}:{C}.write | only full segments mid-transfer", w.loc(c), f"send() of a middle segment under {g}")
 
 
